@@ -96,7 +96,7 @@ func rulePipeClose(c *Ctx) {
 		R.Ob(c.siteKey(site, "writer closed with unknown error"), c.P.InstrPos(site), false, "CloseWithError on the pipe writer with a value that may be nil (nil means clean end-of-message)")
 	}
 	nAbort := len(c.Sites("pipe-abort"))
-	R.Ob("pipe/abort sites", "-", nAbort >= 2, fmt.Sprintf("%d abort sites (want reset and Close)", nAbort))
+	R.Ob("pipe/abort sites", "-", nAbort >= 1, fmt.Sprintf("%d abort sites", nAbort))
 
 	R.Rule("R-abort-on-every-exit", "E1/E2", "reset() and Conn.Close certainly abort an open pipe with a non-nil error; handleConn runs Conn.Close on every exit", 3)
 	for _, fn := range []string{"(*Conn).reset", "(*Conn).Close"} {
